@@ -4,7 +4,7 @@ import ast
 from engine.index import AnalysisError
 from engine.helpers import (resolver, facts_at, filter_facts_at, lit_cmp, describe_facts, unparse, walk_no_nested, returns,
                             deref, body_only_aborts, calls_to, reaching_def, self_attr_stores, all_paths_imply)
-from engine.lin import clause_implies
+from engine.lin import to_cnf, clause_implies
 from engine.fold import EnumConst
 from engine.types import bind_args
 from engine.selftest import V
@@ -259,10 +259,16 @@ def c13_5(ctx):
     ok = len(rr) == 1
     if ok:
         v = deref(ctx, e, rr[0].value, rr[0])
-        txt = unparse(v)
-        ok = 'len(' in txt and '> 0' in txt
         inter = [n for n in ast.walk(e.node) if isinstance(n, ast.Call) and isinstance(n.func, ast.Attribute) and n.func.attr == 'intersection']
-        ok = ok and len(inter) == 1 and unparse(inter[0].func.value) == 'self.contained_labels()' and unparse(inter[0].args[0]) == e.call_params[0].arg
+        ok = len(inter) == 1 and unparse(inter[0].func.value) == 'self.contained_labels()' and unparse(inter[0].args[0]) == e.call_params[0].arg
+        if ok:
+            # the result is "the intersection is not empty", however that is spelled
+            r_e = resolver(ctx, e, inline=True)
+            it = unparse(inter[0])
+            got = to_cnf(v, True, r_e)
+            want = [to_cnf(ast.parse(f'len({it}) > 0', mode='eval').body, True, r_e), to_cnf(ast.parse(f'len({it}) != 0', mode='eval').body, True, r_e),
+                    to_cnf(ast.parse(f'bool({it})', mode='eval').body, True, r_e), to_cnf(ast.parse(it, mode='eval').body, True, r_e)]
+            ok = got in want
     ctx.check(ok, 'register-guard:expression-test', e.site(), 'an expression contains a register label iff its labels intersect the register set', '; '.join(unparse(r) for r in rr))
     cl = ctx.repo.func('bespokeasm.expression.ExpressionNode.contained_labels')
     res = resolver(ctx, cl, inline=False)
@@ -325,7 +331,7 @@ def c13_7(ctx):
     iv = ctx.repo.func(IG + '.generate_variant_bytecode_parts')
     r2 = resolver(ctx, iv, inline=False)
     nm = [r for r in returns(iv) if isinstance(r.value, ast.Constant) and r.value.value is None]
-    ok = any(any('len(operand_list)' in describe_facts([c]) for c in facts_at(ctx, iv, r, r2)) for r in nm)
+    ok = any(any(c == frozenset({('truthy', 'operand_list', True)}) for c in facts_at(ctx, iv, r, r2)) for r in nm)
     ctx.check(ok, 'count:operandless-variant', iv.site(), 'operands given to a variant without operands mean no match', '')
 
 
